@@ -5,7 +5,7 @@ Pipeline (DESIGN.md 7/C19):
      peering-H, multi-hop core) under every structural mutation (DeleteEntry, DupEntry, SwapEntries,
      ZeroIf, ZeroAll, AliasIf, CrossWirePeer, ZeroPeer, Oversize 63/64/70, SingleAs, Empty, OutOfRangeMtu,
      DupSegment, FlipKind, AddIsland) and every pair "mutation, then junk/degenerate mutation"
-     (thorough: all pairs on two topologies, triples with the small alphabet).  The I-layer is the
+     (thorough: the larger junk alphabet, all pairs of the non-oversize mutations on the peering topology, triples with the small junk alphabet on two topologies).  The I-layer is the
      combinator as written (graph edges, breadth-first search with valid_next_seg, PathSolution::path
      interface list, encodability, loop filter); invariants Total, Monotone, SelfConsistent on the
      model.  Oracle self-check: FIXED = FALSE (pinned commit: malformed segments used, empty interface
@@ -44,6 +44,7 @@ SD = "SegSoup"
 ALL_OPS = ["DeleteEntry", "DupEntry", "SwapEntries", "ZeroIf", "ZeroAll", "AliasIf", "CrossWirePeer", "Oversize",
            "SingleAs", "Empty", "OutOfRangeMtu", "DupSegment", "FlipKind", "AddIsland", "ZeroPeer"]
 JUNK_OPS = ["AddIsland", "ZeroAll", "Empty", "DupSegment", "SingleAs", "FlipKind"]
+QUICK_JUNK = ["AddIsland", "ZeroAll", "Empty", "DupSegment"]
 
 MC_TMPL = """SPECIFICATION MCSpec
 VIEW MCView
@@ -121,10 +122,11 @@ def run(c):
         c.fail_tool("oracle self-check failed: FIXED = FALSE no longer violates Total and SelfConsistent in the model (%s)" % r0.violated)
 
     # ---- 1. exhaustive runs + generation ------------------------------------------------------
-    runs = [dict(topos="{1, 2, 3, 4}", depth=2, ops1=tla_set(ALL_OPS), ops2=tla_set(JUNK_OPS))]
+    runs = [dict(topos="{1, 2, 3, 4}", depth=2, ops1=tla_set(ALL_OPS), ops2=tla_set(JUNK_OPS if thorough else QUICK_JUNK))]
     if thorough:
-        runs += [dict(topos="{2, 3}", depth=2, ops1=tla_set(ALL_OPS), ops2=tla_set(ALL_OPS)),
-                 dict(topos="{1, 4}", depth=3, ops1=tla_set(JUNK_OPS + ["ZeroIf", "DupEntry"]), ops2=tla_set(JUNK_OPS))]
+        light = [o for o in ALL_OPS if o not in ("Oversize", "OutOfRangeMtu")]
+        runs += [dict(topos="{3}", depth=2, ops1=tla_set(light), ops2=tla_set(light)),
+                 dict(topos="{1, 4}", depth=3, ops1=tla_set(QUICK_JUNK + ["ZeroIf"]), ops2=tla_set(QUICK_JUNK))]
     cases = []
     seen = set()
     for i, k in enumerate(runs):
